@@ -1,7 +1,7 @@
 """C02 - every module type survives a .sunsynth round trip and Module.clone()."""
 from io import BytesIO
 
-from .. import build, env, monitors, snapshot, spec, workload
+from .. import build, env, iffparse, monitors, snapshot, spec, workload
 
 PROPERTY = "C02"
 LEVEL = "exploration"
@@ -242,6 +242,84 @@ def failed_then_repaired(res, T, m, desc):
     compare(res, T, "clone-after-failed-save", good, build.norm_module(snapshot.snap_module(again, "synth"), "after"), desc)
 
 
+def older_layout_then_edit(res, T):
+    """A module loaded from a file of an OLDER layout of its type (fewer CVALs than the type has controllers today, shorter CMID),
+    whose newer controllers - and their MIDI bindings - are then edited: the edits survive synth, clone and project round trips.
+    A flags word with bits that have no name in this library (a foreign writer's, or `mod.flags |= 1 << 26`) survives as it is."""
+    import struct
+    import rv.api as api
+    from rv.modules import MODULE_CLASSES
+    t = spec.load()[T]
+    cls = MODULE_CLASSES[t.mtype]
+    ctls = [c for c in t.controllers if c.attached]
+    if len(ctls) < 3 or T == "MetaModule":
+        return
+    chunks = [(c[0], c[1]) for c in iffparse.parse(api.Synth(cls()).read())]
+    idx = [k for k, c in enumerate(chunks) if c[0] == b"CVAL"]
+    drop = min(2, len(idx) - 1)
+    keep = len(idx) - drop
+    out = []
+    for k, (cid, pl) in enumerate(chunks):
+        if cid == b"CVAL" and k in idx[keep:]:
+            continue
+        if cid == b"CMID":
+            pl = pl[:8 * keep]
+        out.append((cid, pl))
+    desc = {"type": T, "family": "older-layout-then-edit", "cvals_in_file": keep, "controllers_today": len(idx)}
+    res.case((T, "older-layout-then-edit"))
+    res.count("older_layout_files")
+    try:
+        m = workload.load(iffparse.build(out)).module
+    except Exception as e:
+        res.violation(f"C02:older-layout-unloadable:{T}:{workload.exc_key(e)}", f"{T} file with {keep} of {len(idx)} CVALs does not load: {e!r}", desc)
+        return
+    edited = {}
+    for sc in ctls[keep:]:
+        if sc.kind == "dependent":
+            continue
+        dom = list(sc.domain(None))
+        v = dom[-1] if _cval(getattr(m, sc.name)) != _cval(dom[-1]) else dom[0]
+        try:
+            setattr(m, sc.name, getattr(cls, sc.enum)(v) if sc.kind == "enum" else v)
+            m.controller_midi_maps[sc.name].channel = 7
+            m.controller_midi_maps[sc.name].message_parameter = 99
+        except Exception:
+            continue
+        edited[sc.name] = _cval(v)
+    m.flags = m.flags | (1 << 26) | 0x20
+    want_flags = m.flags
+    if not edited:
+        return
+    p = api.Project()
+    for how in ("synth", "clone", "project"):
+        try:
+            if how == "synth":
+                back = workload.load(api.Synth(m).read()).module
+            elif how == "clone":
+                back = m.clone()
+            else:
+                if m.parent is None:
+                    p.attach_module(m)
+                back = workload.load(p.read()).modules[m.index]
+        except Exception as e:
+            res.violation(f"C02:older-layout-raises:{T}:{workload.exc_key(e)}", f"{T} from an older-layout file, edited, {how}: {e!r}", desc)
+            return
+        res.count("older_layout_roundtrips")
+        for name, v in edited.items():
+            cm = back.controller_midi_maps[name]
+            if _cval(getattr(back, name)) != v or (cm.channel, cm.message_parameter) != (7, 99):
+                res.violation(f"C02:older-layout-edit-lost:{T}:{how}", f"{T} loaded from a file with {keep} of {len(idx)} CVALs; {name} = {v} and its MIDI binding (7, 99) set afterwards; "
+                                                                      f"after the {how} round trip: {getattr(back, name)!r}, ({cm.channel}, {cm.message_parameter})", dict(desc, controller=name))
+                return
+        if back.flags != want_flags:
+            res.violation(f"C02:{how}:{T}:/flags", f"{T}: flags {want_flags:#x} (bits without a name in this library set) come back as {back.flags:#x} after the {how} round trip", desc)
+            return
+
+
+def _cval(x):
+    return x.value if hasattr(x, "value") and not isinstance(x, (int, bool)) else (x.value if hasattr(x, "value") and hasattr(x, "name") else x)
+
+
 def big_payloads(res):
     """Payloads of 1, 2, 3 MiB (exactly, and one byte around): Vorbis data and a sampler sample."""
     import rv.api as api
@@ -337,6 +415,9 @@ def run_shard(spec_, res):
                 res.violation(f"C02:build-raises:{T}:{workload.exc_key(e)}", f"building {T} raised {e!r}", {"case_seed": spec_["seed"], "index": index, "type": T})
                 continue
             check_module(res, c, T)
+    if spec_["shard"] % 2 == 0:
+        for T in types[spec_["shard"] // 2::max(1, spec_["n_shards"] // 2)]:
+            older_layout_then_edit(res, T)
     workload.fresh_process_reload(res, PROPERTY, FRESH)
     del FRESH[:]
     if spec_["shard"] == 0:
